@@ -182,6 +182,105 @@ theorem xbarModel_inBox (lb ub : Vec α) (hb : BoxOk lb ub) (e : α) (x g : Vec 
   rw [h2, h3] at this
   exact this
 
+end U
+/-- `InBox` (with `¬ <`) gives `InBoxF` (with `≤`) in a linear order -/
+theorem inBoxF_of_inBox {lb ub p : Vec K} (h : InBox lb ub p) : InBoxF lb ub p := by
+  induction lb generalizing ub p with
+  | nil => cases ub <;> cases p <;> simp_all [InBoxF, InBox]
+  | cons l ls ih =>
+    cases ub with
+    | nil => simp [InBox] at h
+    | cons u us =>
+      cases p with
+      | nil => simp [InBox] at h
+      | cons q qs =>
+        simp only [InBox] at h
+        simp only [InBoxF]
+        exact ⟨⟨not_lt.1 h.1.1, not_lt.1 h.1.2⟩, ih h.2⟩
+
+/-- a box that contains a point is well formed -/
+theorem boxOk_of_inBox {lb ub p : Vec K} (h : InBox lb ub p) : BoxOk lb ub := by
+  induction lb generalizing ub p with
+  | nil => cases ub <;> cases p <;> simp_all [BoxOk, InBox]
+  | cons l ls ih =>
+    cases ub with
+    | nil => simp [InBox] at h
+    | cons u us =>
+      cases p with
+      | nil => simp [InBox] at h
+      | cons q qs =>
+        simp only [InBox] at h
+        simp only [BoxOk]
+        exact ⟨not_lt.2 (le_trans (not_lt.1 h.1.1) (not_lt.1 h.1.2)), ih h.2⟩
+
+open Matrix in
+/-- **C01 (g) — first iteration, closed form.** With an empty memory (first iteration, or after a
+reset) nothing is solved: `B = I`, the Cauchy search and the subspace step are plain arithmetic.
+For the complete model, at every feasible non-stationary `x`, the direction `x̄ − x` is a descent
+direction — the only hypothesis left is that the Fortran floor on `f''` stays inactive. -/
+theorem first_iteration_descent (lb ub : Vec K) (e : K) (x g : Vec K) (n : Nat) (hn : x.length = n) (hn0 : 0 < n)
+    (hg : g.length = n) (hbox : InBoxF lb ub x) (hns : projgr x g lb ub ≠ 0)
+    (hfloor : ∀ dd : Fin n → K, dd ≠ 0 →
+      (∀ r, dd r = 0 ∨ dd r = vec n (cauchyD0 (breakpoints x g lb ub) g) r) →
+      e * f2orgOf (kernelInput x g lb ub none e) ≤ 1 * (dd ⬝ᵥ dd)) :
+    vec n g ⬝ᵥ (vec n (xbarModel lb ub e x g none) - vec n x) < 0 := by
+  have hfit : fitTo x g = g := fitTo_eq x g (by rw [hg, hn])
+  have hi : kernelInput x g lb ub none e =
+      { x, g, lb, ub, theta := 1, W := x.map fun _ => [0], Minv := [[0]], useFactor := false, epsFsec := e } := by
+    simp only [kernelInput, hfit]
+  have hk : kOf (kernelInput x g lb ub none e) = 1 := by
+    rw [hi]
+    unfold kOf
+    cases x with
+    | nil => simp at hn; omega
+    | cons a as => rfl
+  have hrow : ∀ r, r < n → ((kernelInput x g lb ub none e).W.getD r []).length = 1 := by
+    intro r hr
+    rw [hi]
+    have hrx : r < x.length := by rw [hn]; exact hr
+    show ((x.map fun _ => ([0] : Vec K)).getD r []).length = 1
+    rw [List.getD_eq_getElem?_getD, List.getElem?_map, List.getElem?_eq_getElem hrx]
+    rfl
+  have hc : MinCtx (kernelInput x g lb ub none e) n 1 (0 : Matrix (Fin 1) (Fin 1) K)
+      (f2orgOf (kernelInput x g lb ub none e)) :=
+    C08.minCtx_nopairs _ n 1 (by rw [hi]; exact hn) (by rw [hi]; exact hg) (by rw [hi]; simp [hn]) hrow
+      (by rw [hi]) (by rw [hi]; exact one_pos) (by rw [hi]; exact hbox) _
+      (by
+        intro dd hne hpat
+        have := hfloor dd hne (by rw [hi] at hpat; exact hpat)
+        rw [hi] at this ⊢
+        exact this)
+  have hdec := C01.nonstationary_cauchy_decrease _ n 1 0 hk hc (by rw [hi]; exact hns)
+  -- the subspace step
+  have hcpbox : InBox lb ub (cauchy (kernelInput x g lb ub none e)).1 := by
+    have := C08.gcp_in_box (kernelInput x g lb ub none e) (by rw [hi]; exact boxOk_of_inBox (C11.inBox_of_inBoxF hbox))
+      (by rw [hi]; exact C11.inBox_of_inBoxF hbox) (by rw [hi]; simp [hg, hn])
+    rw [hi] at this ⊢
+    exact this
+  have hcplen : (cauchy (kernelInput x g lb ub none e)).1.length = n := by
+    rw [(inBox_length hcpbox).1, (inBox_length (C11.inBox_of_inBoxF hbox)).1.symm, hn]
+  have hsub : SubCtx0 (subInOf (kernelInput x g lb ub none e)) n 1 := by
+    refine ⟨?_, ?_, hcplen, ?_, ?_, ?_, ?_, ?_⟩
+    · show (kernelInput x g lb ub none e).x.length = n; rw [hi]; exact hn
+    · show (kernelInput x g lb ub none e).g.length = n; rw [hi]; exact hg
+    · show (kernelInput x g lb ub none e).W.length = n; rw [hi]; simp [hn]
+    · exact hrow
+    · show InBoxF (kernelInput x g lb ub none e).lb (kernelInput x g lb ub none e).ub _
+      rw [hi]; rw [hi] at hcpbox; exact inBoxF_of_inBox hcpbox
+    · show (kernelInput x g lb ub none e).theta ≠ 0; rw [hi]; exact one_ne_zero
+    · show (kernelInput x g lb ub none e).useFactor = false; rw [hi]
+  have := C09.subspace_direction_descent_nopairs (subInOf (kernelInput x g lb ub none e)) n 1 hsub
+    (by show 0 < (kernelInput x g lb ub none e).theta; rw [hi]; exact one_pos) hdec
+  have e1 : (subInOf (kernelInput x g lb ub none e)).g = g := by
+    show (kernelInput x g lb ub none e).g = g; rw [hi]
+  have e2 : (subInOf (kernelInput x g lb ub none e)).x = x := by
+    show (kernelInput x g lb ub none e).x = x; rw [hi]
+  rw [e1, e2] at this
+  exact this
+
+section U2
+variable {α : Type} [LinearOrder α] [Add α] [Sub α] [Mul α] [Div α] [Neg α] [OfNat α 0] [OfNat α 1]
+
 section complete
 variable {ε : Type} [FloatLike α] [Dcsrch.DcOps α]
 
@@ -205,6 +304,48 @@ theorem evals_in_box_complete (u : User α ε) (c : Cfg α) (e : α) (hbox : Box
 
 end complete
 
-end U
+end U2
 
+end Lbfgsb
+
+/-! ### Non-vacuity of `first_iteration_descent` (ℚ): x = (0,0), g = (−1, 2), box [−1,1]², floor constant 10⁻³⁰ -/
+namespace Lbfgsb
+open Matrix
+section nonvacuous
+
+theorem ex_f2org0 : f2orgOf (kernelInput ([0, 0] : Vec ℚ) [-1, 2] [-1, -1] [1, 1] none (1 / 10 ^ 30)) = 5 := by
+  decide +kernel
+
+example : vec 2 ([-1, 2] : Vec ℚ) ⬝ᵥ
+    (vec 2 (xbarModel [-1, -1] [1, 1] (1 / 10 ^ 30) ([0, 0] : Vec ℚ) [-1, 2] none) - vec 2 ([0, 0] : Vec ℚ)) < 0 := by
+  apply first_iteration_descent _ _ _ _ _ 2 rfl (by norm_num) rfl (by simp [InBoxF]) (by decide +kernel)
+  intro dd hne hpat
+  rw [ex_f2org0]
+  have hd0 : cauchyD0 (breakpoints ([0, 0] : Vec ℚ) [-1, 2] [-1, -1] [1, 1]) [-1, 2] = [1, -2] := by decide +kernel
+  rw [hd0] at hpat
+  have h0 := hpat 0
+  have h1 := hpat 1
+  have e0 : vec 2 ([1, -2] : List ℚ) 0 = 1 := rfl
+  have e1 : vec 2 ([1, -2] : List ℚ) 1 = -2 := rfl
+  rw [e0] at h0
+  rw [e1] at h1
+  have hsum : dd ⬝ᵥ dd = dd 0 * dd 0 + dd 1 * dd 1 := by simp [dotProduct, Fin.sum_univ_two]
+  rw [hsum]
+  have : dd 0 ≠ 0 ∨ dd 1 ≠ 0 := by
+    by_contra hcon
+    push Not at hcon
+    apply hne
+    funext r
+    fin_cases r
+    · exact hcon.1
+    · exact hcon.2
+  rcases this with h | h
+  · have h0' : dd 0 = 1 := h0.resolve_left h
+    have := mul_self_nonneg (dd 1)
+    rw [h0']; norm_num; nlinarith
+  · have h1' : dd 1 = -2 := h1.resolve_left h
+    have := mul_self_nonneg (dd 0)
+    rw [h1']; norm_num; nlinarith
+
+end nonvacuous
 end Lbfgsb
